@@ -272,6 +272,53 @@ var failures = []failure{
 		_ = call("Socket.Close(peer)", 0, peer.Close)
 		kit.Quiesce()
 	}},
+	{"inbound-messages-the-protocol-discards", func(w *world) bool { return w.k.CanRecv }, func(w *world) {
+		// hop limit at its smallest, default or largest value (where the pattern has one); then
+		// messages that are too short, over the hop limit, exactly at it, with the hop byte at 254 /
+		// 255, with bad reserved bytes, with a backtrace one longer than the limit
+		ttl := []int{0, 1, 255}[kit.ChooseFree(3)]
+		if ttl != 0 {
+			if err := w.x.S.SetOption(mangos.OptionTTL, ttl); err != nil {
+				if ttl == 255 {
+					return // (no hop limit on this pattern: one variant is enough)
+				}
+				ttl = 0
+			}
+		}
+		lim := ttl
+		if lim == 0 {
+			lim = 8
+		}
+		p := w.x.P
+		if p == nil || !p.Alive() {
+			p = w.x.EP.Connect()
+			kit.Quiesce()
+		}
+		for _, b := range [][]byte{{}, {0x80}, {0, 0, 1}, {0, 0, 0, byte(lim), 'x'}, {0, 0, 0, byte(lim + 1), 'x'}, {0, 0, 0, 254, 'x'}, {0, 0, 0, 255, 'x'}, {0, 0, 1, 0, 'x'}, {1, 0, 0, 0, 'x'}} {
+			p.Deliver(b)
+		}
+		var bt []byte
+		for i := 0; i < lim+1 && i < 20; i++ {
+			bt = append(bt, 0, 0, 0, byte(i+1))
+		}
+		p.Deliver(append(append(bt, 0x80, 0, 0, 1), "deep"...))
+		kit.Quiesce()
+		kit.Count("error-provoked")
+		// whatever of this was deliverable is taken out of the way
+		_ = w.x.S.SetOption(mangos.OptionRecvDeadline, 10*time.Millisecond)
+		drained := 0
+		for i := 0; i < 12; i++ {
+			if err := call("Recv-drain", time.Second, func() error { _, err := w.x.Recv(); return err }); err != nil {
+				break
+			}
+			drained++
+		}
+		if drained > 0 && w.k.NeedReq && !w.k.Raw {
+			// a request was delivered: answer it, so that no request is pending afterwards
+			_ = call("Send-clear", time.Second, func() error { return w.x.Send("clear") })
+		}
+		_ = w.x.S.SetOption(mangos.OptionRecvDeadline, time.Hour)
+	}},
 	{"peer-drops-connection", nil, func(w *world) {
 		p := w.x.EP.Connect()
 		kit.Quiesce()
